@@ -49,7 +49,9 @@ Proof.
   destruct i as [|i].
   - destruct b as [|y b]; cbn in Hi; [lia|]. exists [], b. cbn. auto.
   - destruct (IH i c d ltac:(lia)) as (pre & post & E & L & S2).
-    exists (x :: pre), post. cbn [nth length app set_nth_nat]. rewrite S2. split; [|split]; auto.
+    exists (x :: pre), post.
+    change (set_nth_nat (S (S i)) d (set_nth_nat (S i) c (x :: b))) with (x :: set_nth_nat (S i) d (set_nth_nat i c b)).
+    rewrite S2. cbn [nth length app]. split; [|split]; auto.
     f_equal. exact E.
 Qed.
 
